@@ -6,6 +6,8 @@ import (
 	"fmt"
 	"os"
 	"path/filepath"
+	"strconv"
+	"strings"
 )
 
 // M is a JSON object; records are written with every variant value tagged (field "t") because
@@ -21,6 +23,22 @@ type shardWriter struct {
 	samples []any
 	seen    map[string]struct{}
 	counts  map[string]int
+	seq     int          // every record offered to put() gets the next sequence number "k"
+	only    map[int]bool // replay: write only these sequence numbers
+}
+
+// parseOnly parses "-x only=3,17" (replay of selected records of a deterministic generator run)
+func parseOnly(x string) map[int]bool {
+	if !strings.HasPrefix(x, "only=") {
+		return nil
+	}
+	m := map[int]bool{}
+	for _, f := range strings.Split(x[5:], ",") {
+		if n, err := strconv.Atoi(f); err == nil {
+			m[n] = true
+		}
+	}
+	return m
 }
 
 func newShardWriter(dir, prefix string, shards int) (*shardWriter, error) {
@@ -44,6 +62,13 @@ func newShardWriter(dir, prefix string, shards int) (*shardWriter, error) {
 // put writes one record; `class` feeds the per-class counters, `key` (if non-empty) the
 // distinct-case counter.
 func (w *shardWriter) put(rec any, class, key string) {
+	w.seq++
+	if m, ok := rec.(M); ok {
+		m["k"] = w.seq
+	}
+	if w.only != nil && !w.only[w.seq] {
+		return
+	}
 	b, err := json.Marshal(rec)
 	if err != nil {
 		panic(err)
